@@ -1868,6 +1868,12 @@ class unyt_array(np.ndarray):
             # Unary ufuncs
             inp = inputs[0]
             u = getattr(inp, "units", None)
+            if hasattr(kwargs.get("initial"), "units") and self._ufunc_registry.get(
+                ufunc
+            ) in (_preserve_units, _comparison_unit, _arctan2_unit, _difference_units):
+                # the start value of a reduction is combined with the data:
+                # express it in the units of the data (raises if it cannot be)
+                kwargs["initial"] = kwargs["initial"].to_value(u)
             if u.dimensions is angle and ufunc in trigonometric_operators:
                 # ensure np.sin(90*degrees) works as expected
                 inp = inp.in_units("radian").v
